@@ -159,6 +159,7 @@ fn timeline_strategy(_t: Tier) -> BoxedStrategy<ValidCase> {
                 g.dpts = *d;
             }
             if reorder {
+                c.reorder = true;
                 for (g, x) in c.video.iter_mut().zip(cts.iter()) {
                     g.cts = *x;
                 }
